@@ -154,6 +154,8 @@ impl Container {
             return Ok(None);
         }
         let cache_slot = &self.packs[pack_id.into_usize()];
+        #[cfg(jubako_verif)]
+        crate::verif_hooks::point("pack_slot", pack_id.into_u64(), 0);
         if cache_slot.get().is_none() {
             match self._get_pack(pack_id)? {
                 None => return Ok(None),
